@@ -680,8 +680,6 @@ def replay_applied(d):
 
     start = _dt.datetime.fromisoformat(d["start"])
     dt, k0, m = d["dt"], d["k0"], d["m"]
-    if k0 * dt < 40:
-        return False, {"skipped": "scenario times below 40 s are outside the bound (numpy.spacing below fpe resolution: C15/C03 note)"}
     ns = types.SimpleNamespace(JulianDate=JulianDate, ScenarioTime=ScenarioTime)
     log = _Log()
     js = datetimeToJulianDate(start)
@@ -743,7 +741,7 @@ def o_applied(rep, dt):
         tgt = integer("target")
         assume(z3.Or(*[tgt.t == i for i in TGT_IDS]))
         m = integer("m")
-        assume(m.t > k0.t * dt, m.t <= (k0.t + 2) * dt, k0.t * dt >= 40)
+        assume(m.t > k0.t * dt, m.t <= (k0.t + 2) * dt)
         return [_impulse_row(jdp, t0, m.t, tgt)]
 
     res = _explore(lambda: run_steps(None, dt, True, mk, apply=True), "relaxed")
